@@ -249,6 +249,10 @@ def mk_case(ids, kinds, mode, keep, rate, timeout, consume=('all',), rng=None):
         if i not in beh:
             st = rng.choice(STATUSES[:4]) if rng else None
             beh[i] = mk_beh(k, i, status=st)
+            if rng and k in ('verdict', 'bare') and rng.random() < 0.12:
+                # the replayed code does part of its work in a child process of its own (multiprocessing): invisible in the
+                # verdict, in-process and in a dedicated worker alike
+                beh[i]['child'] = True
     if any(b['k'] == 'late' for b in beh.values()) and float(timeout) == int(timeout):
         timeout = timeout + 0.5     # whole-second time-outs make the number of polls depend on microseconds
     if mode == 'both' and not all(b['k'] in INPROC_OK for b in beh.values()):
